@@ -41,6 +41,7 @@ type c18scn struct {
 	Listeners []string `json:"listeners"`
 	Sessions  int      `json:"sessions"`
 	Busy      bool     `json:"busy"`
+	Echo      bool     `json:"echo,omitempty"` // the server's message handler answers every message (with its own context)
 	Moment    string   `json:"moment"` // immediate | storm | parked | traffic
 	Storm     int      `json:"storm"`
 	Perturb   bool     `json:"perturb"`
@@ -68,6 +69,10 @@ func (c18) Plan(tier string, seed uint64) []core.Case {
 	// gets it handed over directly, one that is busy with earlier traffic finds both the envelope and the closing)
 	for k, m := range []string{"immediate", "traffic", "immediate", "traffic"} {
 		scns = append(scns, c18scn{Listeners: []string{rig.InProc}, Sessions: 8, Busy: true, Moment: m, Storm: 8, Perturb: k >= 2})
+	}
+	// sessions whose handlers are answering at the moment of Close
+	for k, ls := range [][]string{{rig.TCP}, {rig.WS}, {rig.InProc}, {rig.TCP, rig.InProc, rig.WS}} {
+		scns = append(scns, c18scn{Listeners: ls, Sessions: 8, Busy: true, Echo: true, Moment: "traffic", Storm: 8, Perturb: k%2 == 1})
 	}
 	var cases []core.Case
 	per := 4
@@ -119,6 +124,9 @@ type c18cb struct {
 
 func (p c18) scenario(r *core.Result, s c18scn, seed uint64) {
 	tag := fmt.Sprintf("listeners=%v sessions=%d busy=%v close=%s", s.Listeners, s.Sessions, s.Busy, s.Moment)
+	if s.Echo {
+		tag += " echo-handlers"
+	}
 	rng := core.NewRng(seed)
 	core.CanaryReset()
 	fail := func(k, format string, a ...interface{}) {
@@ -163,7 +171,22 @@ func (p c18) scenario(r *core.Result, s c18scn, seed uint64) {
 		}
 		cb.mu.Unlock()
 	}
-	mux.MessageHandlerFunc(nil, func(ctx context.Context, m *lime.Message, sd lime.Sender) error { onHandler(ctx); return nil })
+	var echoes, echoErrs int64
+	mux.MessageHandlerFunc(nil, func(ctx context.Context, m *lime.Message, sd lime.Sender) error {
+		onHandler(ctx)
+		if s.Echo {
+			// an ordinary echo handler: it answers under the context it was given (which the server cancels at Close)
+			reply := &lime.Message{}
+			reply.ID = "echo-" + m.ID
+			reply.SetContent(lime.TextDocument("echo"))
+			if err := sd.SendMessage(ctx, reply); err != nil {
+				atomic.AddInt64(&echoErrs, 1)
+			} else {
+				atomic.AddInt64(&echoes, 1)
+			}
+		}
+		return nil
+	})
 	mux.RequestCommandHandlerFunc(nil, func(ctx context.Context, m *lime.RequestCommand, sd lime.Sender) error {
 		onHandler(ctx)
 		return nil
@@ -570,6 +593,8 @@ func (p c18) scenario(r *core.Result, s c18scn, seed uint64) {
 		fail("handler-before-established", "a handler ran before the Established callback for sessions %v", cb.handlerPre)
 	}
 	cb.mu.Unlock()
+	r.Count("echo_replies", int(atomic.LoadInt64(&echoes)))
+	r.Count("echo_reply_errors", int(atomic.LoadInt64(&echoErrs)))
 	r.Count("hook_hits", int(atomic.LoadInt64(&hookHits)))
 	r.Count("failed_handshakes_mixed", int(atomic.LoadInt64(&rejected)))
 	if r.Sample == nil {
